@@ -134,6 +134,7 @@ pub struct Interpreter<'a, R: RealNumberInternalTrait> {
     lib_loader: LibraryLoader<'a, R>,
     imported_library: HashSet<LibraryName>,
     import_end: bool, // indicate program's import declaration part end
+    syntax_env: Rc<LexicalScope<Transformer>>, // macros defined by programs evaluated on this interpreter
     pub program_directory: Option<PathBuf>,
     _marker: PhantomData<R>,
 }
@@ -151,6 +152,7 @@ impl<'a, R: RealNumberInternalTrait> Interpreter<'a, R> {
             lib_loader: LibraryLoader::default(),
             imported_library: HashSet::new(),
             import_end: false,
+            syntax_env: create_syntax_binding(),
             program_directory: None,
             _marker: PhantomData,
         };
@@ -712,6 +714,7 @@ impl<'a, R: RealNumberInternalTrait> Interpreter<'a, R> {
         {
             let lexer = Lexer::from_char_stream(char_stream);
             let mut parser = Parser::from_lexer(lexer);
+            parser.syntax_env = self.syntax_env.clone();
             parser.try_fold(None, |_, statement| self.eval_root_ast(&statement?))
         }
     }
